@@ -27,6 +27,9 @@ structure Msg where
   muts : List String        -- member mutations applied to the params (`path:absent|null|wrong`)
   deriving Repr
 
+/-- The method a name stands for (`none`: a name in neither method table). -/
+def methodOfName (n : String) : Option Method := Method.all.find? (fun m => m.name == n)
+
 /-- What went over the wire in answer to the envelope. -/
 inductive W
   | none                                  -- nothing
